@@ -335,6 +335,18 @@ func getTestCaseName(respWriter http.ResponseWriter, req *http.Request) (string,
 	return testCaseName, true
 }
 
+// isASCIIDigits returns true if s consists only of ASCII digits. It is used to
+// reject numbers that strconv.ParseInt tolerates (such as a leading sign) but
+// that are not allowed by the timeout header grammars.
+func isASCIIDigits(s string) bool {
+	for i := range len(s) {
+		if s[i] < '0' || s[i] > '9' {
+			return false
+		}
+	}
+	return s != ""
+}
+
 // extractTimeout gets the RPC timeout from the headers, removing the header and
 // returning the value, if present.
 func extractTimeout(headers http.Header, protocol conformancev1.Protocol, feedback *feedbackPrinter) (time.Duration, bool) {
@@ -346,11 +358,11 @@ func extractTimeout(headers http.Header, protocol conformancev1.Protocol, feedba
 		}
 		headers.Del(connectTimeoutHeader)
 		intVal, err := strconv.ParseInt(val, 10, 64)
-		if err != nil || intVal < 0 {
+		if err != nil || intVal < 0 || !isASCIIDigits(val) {
 			feedback.Printf("invalid numeric value for %q header: %q", connectTimeoutHeader, val)
 			break
 		}
-		if intVal > 9999999999 { // 10 digit max
+		if len(val) > 10 { // 10 digit max
 			feedback.Printf("invalid numeric value (>10 digits) in %q header: %q", connectTimeoutHeader, val)
 			break
 		}
@@ -376,11 +388,11 @@ func extractTimeout(headers http.Header, protocol conformancev1.Protocol, feedba
 			break
 		}
 		intVal, err := strconv.ParseInt(timeoutStr, 10, 64)
-		if err != nil || intVal < 0 {
+		if err != nil || intVal < 0 || !isASCIIDigits(timeoutStr) {
 			feedback.Printf("invalid numeric value in %q header: %q", grpcTimeoutHeader, val)
 			break
 		}
-		if intVal > 99999999 { // 8 digit max
+		if len(timeoutStr) > 8 { // 8 digit max
 			feedback.Printf("invalid numeric value (>8 digits) in %q header: %q", grpcTimeoutHeader, val)
 			break
 		}
